@@ -1,2 +1,3 @@
 import UvModel.Lemmas.FsPollLemmas
+import UvModel.Lemmas.FsEventLemmas
 /-! C17 helper lemmas: fs_poll (FsPollLemmas) and fs_event (FsEventLemmas). -/
